@@ -156,7 +156,19 @@ class CV:
         attrs = apply(lambda v: getattr(v, name), self)
         if isinstance(attrs, CV) and all(callable(v) for v in attrs.table.values() if not isinstance(v, _Poison)):
             def method(*a, **k):
-                return apply(lambda f, *aa: f(*aa, **k), attrs, *a)
+                # several choices may share one receiver object (e.g. the same list): a mutating method must
+                # then run once per object, not once per choice
+                memo = {}
+
+                def call(f, *aa):
+                    recv = getattr(f, "__self__", None)
+                    if recv is None or isinstance(recv, (str, int, float, tuple, frozenset, bytes)) or any(isinstance(x, CV) for x in aa):
+                        return f(*aa, **k)
+                    key = (id(recv), getattr(f, "__name__", ""), tuple(id(x) for x in aa))
+                    if key not in memo:
+                        memo[key] = f(*aa, **k)
+                    return memo[key]
+                return apply(call, attrs, *a)
             return method
         return attrs
 
